@@ -84,7 +84,7 @@ pub fn strategy() -> BoxedStrategy<C19Case> {
         prop_oneof![
             1 => Just(Output::Empty),
             3 => val_out().prop_map(Output::Single),
-            4 => proptest::collection::vec(val_out(), 0..5).prop_map(Output::Values),
+            4 => proptest::collection::vec(prop_oneof![6 => val_out(), 1 => Just(Val::Nothing)], 0..5).prop_map(Output::Values),
             2 => (1u8..5).prop_map(Output::Stream),
             1 => (2u8..5, 0u8..4).prop_map(|(n, k)| Output::StreamErr(n, k % n)),
         ],
